@@ -391,6 +391,7 @@ _c09 = [_views_h(v, 2, 1, Q if v != 3 else T, mem_gb=(8 if v != 3 else 24)) for 
     _layout_h('C09', 2, 2, Q), _layout_h('C09', 3, 2, T),
     # operator outputs are well formed: the C08 harnesses assert spec_wf on every output; two of them are re-run here
     _bmoc_h('C09', 0, 1, 2, 2, 2, 2, Q), _bmoc_h('C09', 0, 0, 1, 0, 1, 1, Q), _bmoc_h('C09', 0, 3, 1, 1, 1, 1, Q),
+    _bmoc_h('C09', 0, 3, 2, 1, 1, 0, T, timeout=2400, mem_gb=16),   # a coarse cell overlapping two deeper cells
 ]
 # whole-sky cone outputs are well formed (12 full base cells): same harness as C06, registered here for the "coverage query" producers
 for (_d, _dl) in ((3, 0), (2, 2)):
@@ -406,7 +407,7 @@ PROPS['C09'] = dict(
     functions=['BMOC::{into_iter,flat_iter,flat_iter_cell,to_flat_array,deep_size,to_ranges,from_raw_value}', 'BMOCFlatIter', 'BMOCFlatIterCell',
                'BMOCIter', 'Cell::new', 'build_raw_value', 'to_range'] + _BMOC_FUNCS[:4],
     bounds={'quick': 'views: every valid BMOC with (entries, depth_max) in {(0,1),(2,1),(1,2)}; builder layout: 2 pushes; operator outputs: and (2,2), not (1), xor (1,1)',
-            'thorough': 'adds views (1 entry, depth_max 2), flat array of (2,1); builder layout 3 pushes (views of 3 entries: tier extended)'},
+            'thorough': 'adds views (1 entry, depth_max 2), flat array of (2,1); builder layout 3 pushes; output of xor (2 cells of depth <= 1, one base cell) (views of 3 entries: tier extended)'},
     outside='outputs of cone / polygon / ellipse queries (their recursion order is not decided here); longer BMOCs; well-formedness of every operator and '
             'builder output is asserted in the C07 / C08 / C15 harnesses',
     assumptions=_BMOC_ASSUME,
